@@ -21,6 +21,11 @@ CHECKS = {
                      "passes the same patterns and its result is merged under its own keys, the per-file result is pushed under the pattern that produced it. "
                      "Decides the merge discipline for all trees and listing orders; does not model what read_dir lists.",
                 note=_MIR + "; HashMap::entry/Vec::push/append semantics"),
+    "C09": dict(level="other", design_ref="5/C09", technique="gate formulas extracted from MIR guards, evaluated as formulas over the version triple against the lexicographic spec on a finite grid; guard analysis of the pragma selection (static analysis)",
+                text="Decides each gate as a boolean formula over (major, minor, patch) — exactly on the partition the constants induce (quick) and on the whole grid "
+                     "0.0.0..2.12.41 (thorough) — complementarity of pre/post, that only a directive named solidity yields a version, and that no version means no report. "
+                     "The regex extraction of the triple from the pragma text is not decided.",
+                note=_MIR + "; lexicographic PartialOrd of tuples; regex behaviour"),
     "C10": dict(level="other", design_ref="5/C10", technique="table extraction (size function), guarded-update transition system of the slot counter compared with the reference greedy system, site-level ordering of clone/sort/compare (static analysis)",
                 text="Decides that the size table equals the specified one for every variant of pt::Type, that the counter's guarded updates are exactly the reference "
                      "greedy system (syntactic equality after normalisation, so the arithmetic over all sequences is the reference's), and that both packing detectors "
